@@ -5,6 +5,8 @@ KS-1   digit loops (`for di in 0..dsize`): the limbs of the operand are selected
 SIGN-3 (C03) the Galois-element helpers compute in (Z/2NZ)* with the cyclotomic order
 WR-4   (C03/C04) vmp kernels with a limb offset zero-fill the limbs they do not write
 SC-3   (shared, not re-run here) accumulators of multi-digit products are zeroed before the first reduced-size product
+PACK-1 (C03) the packing butterfly of both implementations, interpreted over the free module {a, b, phi(a), phi(b)} x X^(k t) with coefficients in Z[1/2]
+SIGN-4 (C03) Galois elements stored with set_p are reduced modulo the cyclotomic order
 RAD-1 / RAD-2 (rad.py; C03 / C04 / C05) cross-radix conversions are decided by the comparison of the radices they convert between; radix-asserting operations are not
        called with operands the dominating guards make different
 CMUX-1 (C04) cmux forms: the operand added back after the product is the subtrahend of the difference that was multiplied (res = (t - f) * s + f)
@@ -192,6 +194,191 @@ def cmux1(p, res):
     return n
 
 
+PACK_T = ("deref", "deref_mut", "borrow", "borrow_mut", "as_mut", "as_ref", "to_ref", "to_mut", "as_deref_mut", "as_deref", "unwrap", "expect", "into", "from", "clone")
+
+
+def pack1(p, res):
+    """the packing butterfly, decided by interpreting each path of the two implementations (`pack_internal`, `GLWEPacker::combine`) over the free module with basis
+    {a, b, phi(a), phi(b)} x X^(k t) and coefficients in Z[1/2]:  rotate multiplies by X^(+-t), rsh(1) halves, the automorphism maps x X^(k t) to (-1)^k phi(x) X^(k t)
+    (phi(X^t) = -X^t for the Galois element of the level), add / sub are linear.  The register the path leaves its result in must hold
+        both present:  (a + b X^t + phi(a - b X^t)) / 2      lower only:  (a + phi(a)) / 2      upper only:  (b X^t - phi(b X^t)) / 2."""
+    from fractions import Fraction
+    n = 0
+    for f in sorted(p.lib_fns(), key=lambda x: x.uid):
+        if f.kind == "Closure" or not f.blocks or not f.uid.startswith(("poulpy_core::glwe_packing", "poulpy_core::glwe_packer")):
+            continue
+        names = [(f.callee_def(t) or {}).get("n", "") for _, t in f.calls()]
+        if not any(x.startswith("glwe_automorphism") and not x.endswith("tmp_bytes") for x in names) or not any(x.startswith("glwe_rotate") and not x.endswith("tmp_bytes") for x in names):
+            continue
+        n += 1
+        g = CFG(f)
+        flow = Flow(f, transparent=PACK_T)
+        pn = f.param_names()
+        inv = {v: k for k, v in pn.items()}
+        lo_id = ("param", inv.get("a", inv.get("acc")))
+        hi_id = ("param", inv.get("b"))
+        if lo_id[1] is None or hi_id[1] is None:
+            res.undec("PACK-1", "%s: operands not recognised" % f.pretty)
+            continue
+
+        def ident(op):
+            rr = flow.op_roots(op)
+            ids = set()
+            for r in rr:
+                if r[0] == "param":
+                    ids.add(("param", r[1]))
+                elif r[0] == "call" and r[2][:1] == ("0",):
+                    ids.add(("tmp", r[1]))
+                else:
+                    return None
+            return list(ids)[0] if len(ids) == 1 else None
+
+        def add(x, y, c=1):
+            out = dict(x)
+            for k, v in y.items():
+                out[k] = out.get(k, 0) + c * v
+                if out[k] == 0:
+                    del out[k]
+            return out
+
+        def scale(x, c):
+            return {k: v * c for k, v in x.items()}
+
+        def rot(x, k):
+            return {(b, ph, r + k): v for (b, ph, r), v in x.items()}
+
+        def phi(x):
+            return {(b, ph + 1, r): v * (-1 if r % 2 else 1) for (b, ph, r), v in x.items()}
+        paths = sc.returning_paths(f, g, cap=400, unroll=1) or []
+        verdicts = {}
+        bad = None
+        undec = None
+        seen = set()
+        for path in paths:
+            calls = [(bi, f.blocks[bi]["t"]) for bi in path if f.blocks[bi]["t"] and f.blocks[bi]["t"]["k"] == "Call"]
+            ops = [(bi, t, (f.callee_def(t) or {}).get("n", "")) for bi, t in calls]
+            ops = [(bi, t, nm) for bi, t, nm in ops if nm.startswith("glwe_")]
+            sig = tuple(bi for bi, _, _ in ops)
+            if not ops or sig in seen:
+                continue
+            seen.add(sig)
+            sym = Sym(f, sc.PathFlow(f, path))
+            reg = {lo_id: {("a", 0, 0): Fraction(1)}, hi_id: {("b", 0, 0): Fraction(1)}}
+            read = set()
+            last_written = None
+            T_atom = None
+            ok = True
+
+            def get(i):
+                if i in (lo_id, hi_id):
+                    read.add(i)
+                return reg.get(i)
+            for bi, t, nm in ops:
+                a = t["a"][1:]
+
+                def rotk(op):
+                    nonlocal T_atom
+                    pl = sym.operand(op)
+                    if len(pl.t) != 1:
+                        return None
+                    (mono, c), = pl.t.items()
+                    if len(mono) != 1 or c not in (1, -1):
+                        return None
+                    if T_atom is None:
+                        T_atom = mono[0]
+                    if mono[0] != T_atom:
+                        return None
+                    return c
+                try:
+                    if nm == "glwe_rotate_assign":
+                        k, r = rotk(a[0]), ident(a[1])
+                        reg[r] = rot(get(r), k)
+                        w = r
+                    elif nm == "glwe_rotate":
+                        k, r, x = rotk(a[0]), ident(a[1]), ident(a[2])
+                        reg[r] = rot(get(x), k)
+                        w = r
+                    elif nm == "glwe_rsh":
+                        c = sym.operand(a[0]).const_value()
+                        r = ident(a[1])
+                        reg[r] = scale(get(r), Fraction(1, 2 ** c))
+                        w = r
+                    elif nm in ("glwe_sub", "glwe_add", "glwe_add_into"):
+                        r, x, y = ident(a[0]), ident(a[1]), ident(a[2])
+                        reg[r] = add(get(x), get(y), -1 if nm == "glwe_sub" else 1)
+                        w = r
+                    elif nm in ("glwe_add_assign", "glwe_sub_assign", "glwe_sub_negate_assign"):
+                        r, x = ident(a[0]), ident(a[1])
+                        if nm == "glwe_add_assign":
+                            reg[r] = add(get(r), get(x))
+                        elif nm == "glwe_sub_assign":
+                            reg[r] = add(get(r), get(x), -1)
+                        else:
+                            reg[r] = add(get(x), get(r), -1)
+                        w = r
+                    elif nm in ("glwe_normalize_assign",):
+                        w = ident(a[0])
+                        get(w)
+                    elif nm in ("glwe_copy", "glwe_normalize"):
+                        r, x = ident(a[0]), ident(a[1])
+                        reg[r] = dict(get(x))
+                        w = r
+                    elif nm == "glwe_automorphism_assign":
+                        r = ident(a[0])
+                        reg[r] = phi(get(r))
+                        w = r
+                    elif nm == "glwe_automorphism":
+                        r, x = ident(a[0]), ident(a[1])
+                        reg[r] = phi(get(x))
+                        w = r
+                    elif nm in ("glwe_automorphism_add_assign", "glwe_automorphism_sub_assign", "glwe_automorphism_sub_negate_assign"):
+                        r = ident(a[0])
+                        v = get(r)
+                        reg[r] = {"glwe_automorphism_add_assign": add(phi(v), v), "glwe_automorphism_sub_assign": add(phi(v), v, -1), "glwe_automorphism_sub_negate_assign": add(v, phi(v), -1)}[nm]
+                        w = r
+                    elif nm in ("glwe_automorphism_add", "glwe_automorphism_sub", "glwe_automorphism_sub_negate"):
+                        r, x = ident(a[0]), ident(a[1])
+                        v = get(x)
+                        reg[r] = {"glwe_automorphism_add": add(phi(v), v), "glwe_automorphism_sub": add(phi(v), v, -1), "glwe_automorphism_sub_negate": add(v, phi(v), -1)}[nm]
+                        w = r
+                    else:
+                        ok = False
+                        undec = "operation %s is not interpreted" % nm
+                        break
+                except (TypeError, KeyError, AttributeError):
+                    ok = False
+                    undec = "an operand of %s cannot be identified" % nm
+                    break
+                if w in (lo_id, hi_id):
+                    last_written = w
+            if not ok or last_written is None:
+                continue
+            h = Fraction(1, 2)
+            if lo_id in read and hi_id in read:
+                case, want = "both", {("a", 0, 0): h, ("b", 0, 1): h, ("a", 1, 0): h, ("b", 1, 1): h}
+            elif lo_id in read:
+                case, want = "lower-only", {("a", 0, 0): h, ("a", 1, 0): h}
+            elif hi_id in read:
+                case, want = "upper-only", {("b", 0, 1): h, ("b", 1, 1): h}
+            else:
+                continue
+            have = reg[last_written]
+            verdicts[case] = have == want
+            if have != want and bad is None:
+                def show(d):
+                    return " + ".join("%s*%s%s%s" % (v, "phi(" * ph, b, ")" * ph) + ("*X^(%dt)" % r if r else "") for (b, ph, r), v in sorted(d.items())) or "0"
+                bad = (case, show(have), show(want))
+        if bad:
+            res.bad("PACK-1", f.pretty, "butterfly:%s" % bad[0],
+                    "%s, case %s: the path leaves  %s  in the result where the packing butterfly needs  %s  (phi(X^t) = -X^t): the packed slot is cancelled or the coefficients that "
+                    "should vanish survive" % (f.pretty, bad[0], bad[1], bad[2]), site=f.where())
+        elif len(verdicts) == 3:
+            res.ok("PACK-1", {"fn": f.pretty, "cases": sorted(verdicts)})
+        else:
+            res.undec("PACK-1", "%s: %s" % (f.pretty, undec or "cases decided: %s" % sorted(verdicts)))
+    return n
+
+
 def sign4(p, res):
     """products / sums of Galois elements are reduced in Z/2NZ: a `%` whose dividend is built from the stored Galois element of a key (`p()`) or a parameter named `p` and
     whose result is stored as a Galois element (`set_p`) divides by `cyclotomic_order()` (or 2 * n()), never by the ring degree"""
@@ -239,6 +426,7 @@ def run(res, tier):
     res.rule("KS-1", "digit loops: step == dsize and offset + limb_offset == dsize - 1 on every path")
     res.rule("SIGN-3", "the Galois-element helpers use the ring degree only as 2 * n() / cyclotomic_order()")
     res.rule("WR-4", "raw-slice vmp kernels taking limb_offset: the zero fill starts one stride after the last written limb")
+    res.rule("PACK-1", "packing butterflies (pack_internal, GLWEPacker::combine): every path computes (a + b X^t + phi(a - b X^t)) / 2, (a + phi(a)) / 2 or (b X^t - phi(b X^t)) / 2")
     res.rule("SIGN-4", "a Galois element computed with `%` and stored with set_p is reduced modulo cyclotomic_order() / 2 * n()")
     res.rule("ROW-1", "row accessors X.at(row, ..) / X.at_mut(row, ..) in a row loop: the loop bound stays within X.dnum() under the comparisons that dominate the access")
     res.rule("RAD-1", "a cross-radix conversion skipped / taken on a radix comparison is guarded by the comparison of exactly its input and output radices")
@@ -256,6 +444,8 @@ def run(res, tier):
         from .c11 import wr4
         n4 = wr4(p, res)
         res.floor("WR-4", "limb_offset kernels", n4, 2)
+        npk = pack1(p, res)
+        res.floor("PACK-1", "packing butterfly implementations", npk, 2)
         ns4 = sign4(p, res)
         res.floor("SIGN-4", "stored Galois-element reductions", ns4, 2)
         from . import rad
